@@ -37,6 +37,11 @@ impl InputPlugin for GridSearchPlugin {
                         multiset_indices.push(indices);
                     }
                 }
+                if multiset_indices.is_empty() || multiset_indices.iter().any(|v| v.is_empty()) {
+                    return Err(InputPluginError::InputPluginFailed(String::from(
+                        "grid search section must have at least one array-valued field and no empty arrays",
+                    )));
+                }
                 // for each combination, copy the grid search values into a fresh
                 // copy of the source (minus the "grid_search" key)
                 // let remove_key = InputField::GridSearch.to_str();
